@@ -109,9 +109,16 @@ def parse_operation_field(
         annotation.slice = annotate_nested_unions(
             cast(AnnotationSlice, annotation.slice)
         )
+    top_level_union = is_union(annotation)
     annotation, default_value = parse_directives(
         annotation=annotation, directives=directives if directives else tuple()
     )
+    if top_level_union and is_nullable(annotation):
+        # union made optional by @skip/@include still needs its discriminator
+        annotation = cast(ast.Subscript, annotation)
+        annotation.slice = annotate_nested_unions(
+            cast(AnnotationSlice, annotation.slice)
+        )
 
     return annotation, default_value, context
 
